@@ -80,6 +80,7 @@ def build_segments(shape: Shape, hist: List[Dict[str, Any]], root: str, store_ki
                 if prog["vval"][v] != last_prog["vval"][v]:
                     cur["steps"].append({"op": "setvar", "var": v, "h": h,
                                          "src": mat.var_value_src(shape, v, prog["vval"][v]),
+                                         "inplace": mat.var_inplace_stmt(shape, v, prog["vval"][v]),
                                          "files": files})
         fails = {f: c for (f, c) in prog.get("fail", {}).items() if c != "no"}
         if fails != fail_state:
